@@ -60,6 +60,21 @@ def make_scenarios(rng, tier):
         for seq in itertools.product(kinds, repeat=n):
             scs.append(scenario(sid, 2, 3, [g.op(k) for k in seq], g))
             sid += 1
+    # the SAME operation (byte-identical text) submitted again after the set was changed in between
+    for mid in ("incr", "remove", "clear", "update"):
+        first = g.op("update")
+        scs.append(scenario(sid, 2, 3, [first, g.op(mid), dict(first)], g))
+        sid += 1
+        inc = g.op("incr")
+        scs.append(scenario(sid, 1, 2, [g.op("update"), inc, g.op(mid), dict(inc)], g))
+        sid += 1
+    # a pool EMPTIED by removals is not a cleared pool; clearing it afterwards must still clear it
+    for tail in ([], ["incr"], ["update"], ["setmodel"]):
+        ops = [{"op": "remove", "names": list(RN)}, {"op": "clear"}] + [g.op(k) for k in tail]
+        scs.append(scenario(sid, 1, 2, ops, g))
+        sid += 1
+    scs.append(scenario(sid, 2, 3, [{"op": "remove", "names": ["pa", "pb"]}, {"op": "remove", "names": ["pc", "pd"]}, {"op": "clear"}, {"op": "clear"}], g))
+    sid += 1
     n_rand, maxlen = (12, 8) if tier == "quick" else (300, 12)
     for _ in range(n_rand):
         mn, mx = rng.choice([(2, 3), (1, 4), (1, 2)])
